@@ -92,6 +92,10 @@ def readOnlyParams : List String := ["CMove#2 .identity", "CMove#1 .identity", "
 address only ever reaches parameters the cell analysis shows untouched -/
 theorem no_global_writes : Facts.globalWrites = [] ∧ ∀ a ∈ Facts.globalAddrArgs, a ∈ readOnlyParams := by decide
 
+/-- no API function (nor any callee) has a statement that can write through a caller-supplied byte slice
+(static write analysis of `go2lean`, re-derived on every run; see C15) -/
+theorem no_slice_writes : Facts.sliceParamWrites = [] := by decide
+
 /-- arguments of the group-law formulas are never rebound (cell analysis, regenerated) -/
 theorem arguments_untouched :
     ("Curve.addProjectiveComplete_eu_v", ["v"]) ∈ Facts.untouched ∧
